@@ -52,6 +52,14 @@ func c12Cases(tier string, seed uint64) []fw.Case {
 			if wrapped == nil {
 				continue
 			}
+			// "spliced in place" is only meaningful for a block all of whose tokens reach
+			// its exit: a branch that ends in its own end event consumes the token when
+			// inlined, but merely ends the sub-process (whose parent then continues) when
+			// wrapped — BPMN semantics differ there, so such blocks are not wrapped for the
+			// differential comparison.
+			if earlyEnd(nthBlock(p.AST, w)) {
+				continue
+			}
 			g := gen.Lower("p", p.AST)
 			for di, vars := range assignments(p.NV, maxData, rng) {
 				base := step.Case{G: g, Vars: vars, Lenient: hasOr(g)}
@@ -75,6 +83,36 @@ func c12Cases(tier string, seed uint64) []fw.Case {
 		}
 	}
 	return fw.Number(cs)
+}
+
+func nthBlock(root *gen.Block, n int) *gen.Block {
+	i := -1
+	var found *gen.Block
+	root.Walk(func(b *gen.Block) {
+		i++
+		if i == n {
+			found = b
+		}
+	})
+	return found
+}
+
+func earlyEnd(b *gen.Block) bool {
+	if b == nil {
+		return true
+	}
+	early := false
+	b.Walk(func(x *gen.Block) {
+		if x.Kind == "condtask" {
+			early = true
+		}
+		for _, e := range x.Ends {
+			if e {
+				early = true
+			}
+		}
+	})
+	return early
 }
 
 func c12Run(c *c12Case, env *fw.Env, v *fw.V) {
